@@ -1,4 +1,5 @@
 """C08  The lexer is total and reports faithful token positions  (K3 typestate over the structured HIR of impl Lexer)"""
+import re
 from sa import facts as F, tree as T
 from sa.kinds import vspec as VS
 
@@ -219,9 +220,18 @@ def run(chk, parts=('L1', 'L2', 'L2b', 'L3')):
     if pe is not None:
         appends = any(c.get('k') == 'MCall' and c['n'] == 'push_str' and T.show(T.peel(c['a'][0])) == 'text' for c in T.calls(pe['body']))
         rec = [n for n in T.walk(pe['body']) if n.get('k') == 'AssignOp' and n['op'] in ('+', '+=') and 'token_col_shift' in T.show(n['x'])]
-        formula = rec and T.norm(T.show(rec[0]['y'])).replace(' ', '') in ('consumedasi32-text.chars().count()asi32', 'consumedas_-text.chars().count()as_')
+        shown = T.norm(T.show(rec[0]['y'])).replace(' ', '') if rec else ''
+        m_ = re.match(r'^\(?consumed(?:as(?:i32|_))?\)?-\(?(.+?)(?:as(?:i32|_))?\)?$', shown)
+        sub_ = m_.group(1) if m_ else ''
+        formula = sub_ == 'text.chars().count()'
+        byte_units = bool(m_) and not formula and re.search(r'text(\.as_bytes\(\))?\.len\(\)|text\.bytes\(\)\.count\(\)|text\.encode_utf16\(\)\.count\(\)', sub_) is not None
         push_escaped_ok = bool(appends and formula)
-        if not push_escaped_ok:
+        if byte_units:
+            # a semantic deviation, not a lost anchor: columns are counted in characters everywhere else in the lexer
+            chk.bad(PREFIX + '-L2', 'Lexer::push_escaped', 'token_col_shift unit',
+                    'Lexer::push_escaped records `consumed - %s`: the appended text is measured in bytes / UTF-16 units, not characters, so every token after an escape '
+                    'that stands for a non-ASCII character is reported at a drifted column' % sub_, LEX, rec[0]['l'] if 'l' in rec[0] else pe.get('l', 0))
+        elif not push_escaped_ok:
             chk.lost.append('Lexer::push_escaped exists but is not of the form `s.push_str(text); self.token_col_shift += consumed as i32 - text.chars().count() as i32` '
                             '(appends=%s formula=%s)' % (appends, bool(formula)))
         # the recorded difference is worth something only if the column advance of both emit functions includes it
